@@ -512,3 +512,10 @@ func vh_C06_L9_incomplete_message_is_never_delivered() {
 }
 func vh_C06_L8_short_read_keeps_the_message()           { vh_C18_L3_short_buffer() }
 func vh_C06_L8_forward_tsn_names_only_skipped_streams() { vh_C07_L2_advance_only_over_abandoned() }
+
+// C06.L10: at most once needs a duplicate filter with a slot of its own for every TSN of the
+// window it admits, for every receive-buffer size (= C01.L4b); and an ordered stream delivers
+// in writing order also when a message arrives right after a skip left older complete
+// messages waiting (= C07.L3b).
+func vh_C06_L10_duplicate_filter_has_a_slot_per_tsn() { vh_C01_L4_tracking_window_capacity() }
+func vh_C06_L10_order_kept_around_a_skip()            { vh_C07_L3_skip_covers_several_partial_messages() }
